@@ -20,6 +20,7 @@ Fixpoint drop_zeros (l : list N) : list N :=
   | _ => l
   end.
 Definition strip_zeros (l : list N) : list N := rev (drop_zeros (rev l)).
+Definition all_zero (l : list N) : bool := forallb (N.eqb 0%N) l.
 
 Definition pre_rank (v : version) : Z :=
   match pre v, post v, dev v with
